@@ -263,12 +263,10 @@ func seqBracket(c *core.Ctx, name string, fn *ssa.Function, an *ir.Analysis) {
 		c.Fail("children", name, fn.Pos(), "the children loop is not an ascending range over the node's own Seq")
 	}
 	for _, p := range an.Segs[h] {
-		isIter := l != nil && polarity(p, &ir.Term{Op: "bin", Aux: "<", Args: []*ir.Term{{Op: "bin", Aux: "+", Args: sorted2(an.Start[h].Reg(l.Phi), ir.Const("1"))}, l.Bound}}) > 0
+		isIter := l != nil && l.RangeOver != nil && polarity(p, l.ContinueAtom(an)) > 0
 		if isIter {
 			cs := calls(p)
-			idx := &ir.Term{Op: "bin", Aux: "+", Args: sorted2(an.Start[h].Reg(l.Phi), ir.Const("1"))}
-			elem := &ir.Term{Op: "load", Aux: "0", Args: []*ir.Term{{Op: "iaddr", Args: []*ir.Term{l.RangeOver, idx}}}}
-			good := len(cs) == 1 && cs[0].Method != nil && cs[0].Method.Name() == "Apply" && ir.Same(cs[0].A[0], elem) && paramOf(cs[0].A[2], fn, 2)
+			good := len(cs) == 1 && cs[0].Method != nil && cs[0].Method.Name() == "Apply" && l.IsElem(an, cs[0].A[0]) && paramOf(cs[0].A[2], fn, 2)
 			if good {
 				d, isK := plusConst(cs[0].A[1], &ir.Term{Op: "param", Aux: fn.Params[1].Name()})
 				good = isK && d == 1
